@@ -4,14 +4,13 @@ import GsModel.Scan.GoTypes
 
   `Scan.schemaOf` is the schema the scanner builds for a Go type, `Scan.encode` the JSON encoding/json produces for a value
   of it, `Scan.accepts` strict draft-4 acceptance of the structural part of a schema.
-  * `conforms_containers` — for EVERY type built from basic kinds, time.Time, interface{}, pointers, slices, arrays and
+  * `conforms_containers` — for EVERY type built from basic kinds, time.Time, []byte, interface{}, pointers, slices, arrays and
     string-keyed maps (any nesting) and EVERY value of it: if the encoding contains no JSON null, the scanned schema accepts
     it.
   * `struct_examples` — structs with renamed, omitted-when-empty and `,string` fields (evaluated examples: tests, not a
     theorem over all structs).
   * the excluded points are real, each proved: `nil_pointer_rejected`, `nil_slice_rejected` (JSON null against a typed schema;
-    the scanner's --nullable-pointers option exists for the first), `bytes_mismatch` ([]byte is sent as a base64 string, the
-    schema says array of integers), `string_option_mismatch` (a `,string` field that the scanner types as string although
+    the scanner's --nullable-pointers option exists for the first), `string_option_mismatch` (a `,string` field that the scanner types as string although
     encoding/json ignores the option on that type).
   Tie: Go packages with random model types are scanned with codescan AND compiled into a program that marshals random values
   of the same types; every marshalled value is validated against the scanned definition with go-openapi/validate, and the
@@ -20,7 +19,7 @@ import GsModel.Scan.GoTypes
 namespace Gs.Props.C16
 open Gs Gs.Schema Gs.Scan
 
-/-- types without []byte and without structs -/
+/-- types without structs -/
 def container : Nat → GoTy → Bool
   | 0, _ => false
   | _+1, .basic _ => true
@@ -29,6 +28,7 @@ def container : Nat → GoTy → Bool
   | n+1, .arr t => container n t
   | n+1, .map t => container n t
   | _+1, .time => true
+  | _+1, .bytes => true
   | _+1, .iface => true
   | _+1, _ => false
 
@@ -127,7 +127,11 @@ theorem conforms_containers (b : Bool) : ∀ (n : Nat) (t : GoTy) (v : GoVal) (j
       have : schemaOf b (n+1) .iface = {} := rfl
       rw [this]; exact accepts_any k j
     | strct fs => simp [container] at hc
-    | bytes => simp [container] at hc
+    | bytes =>
+      cases v with
+      | nil => simp [encode] at he; subst he; simp [noNull] at hn
+      | bytes x => simp [encode] at he; subst he; simp [accepts, schemaOf, typeOk]
+      | _ => simp [encode] at he
 
 /-! ### the excluded points are real -/
 
@@ -139,9 +143,9 @@ theorem nil_slice_rejected : ∀ m, accepts m (schemaOf false 3 (.slice (.basic 
     encode 3 (.slice (.basic .int)) .nil = some .null := by
   intro m; cases m <;> simp [accepts, schemaOf, typeOk, encode]
 
-/-- []byte: the schema says array of integers, the wire carries a base64 string -/
-theorem bytes_mismatch (s : String) : ∀ m, accepts m (schemaOf false 3 .bytes) (.str s) = false ∧ encode 3 .bytes (.bytes s) = some (.str s) := by
-  intro m; cases m <;> simp [accepts, schemaOf, typeOk, encode]
+/-- []byte: a base64 string on the wire and in the schema (the scanner described it as an array of integers before the repair) -/
+theorem bytes_ok (x : String) : accepts 2 (schemaOf false 3 .bytes) (.str x) = true ∧ encode 3 .bytes (.bytes x) = some (.str x) := by
+  simp [accepts, schemaOf, typeOk, encode]
 
 /-- a `,string` option on a slice field: ignored by encoding/json, typed as string by a scanner that looks at the option only -/
 theorem string_option_mismatch :
